@@ -267,6 +267,10 @@ fn scan_hot_keys(img: &[u8]) -> Vec<(usize, usize)> {
 }
 
 thread_local! {
+    /// key names of the encryption dictionary of the current (encrypted) base image
+    static ENC_KEY_SPANS: std::cell::RefCell<Vec<(usize, usize)>> = const { std::cell::RefCell::new(Vec::new()) };
+}
+thread_local! {
     /// where the current base image stores integers that serve as a deferred stream Length (reach probe only)
     static LENGTH_OBJECT_SPANS: std::cell::RefCell<Vec<(usize, usize)>> = const { std::cell::RefCell::new(Vec::new()) };
 }
@@ -339,6 +343,7 @@ fn base_image(ctx: &Ctx) -> Result<(Vec<u8>, Option<Vec<u8>>, Vec<(usize, usize)
             // start of every value, weighted so that they are hit about as often as all the rest
             for k in [&b"/O"[..], b"/U", b"/OE", b"/UE", b"/Perms", b"/V ", b"/R ", b"/Length", b"/CFM", b"/P ", b"/CF", b"/StmF", b"/StrF", b"/EncryptMetadata", b"/Filter/Standard", b"/Encrypt"] {
                 if let Some(p) = img.windows(k.len()).rposition(|w| w == k) {
+                    ENC_KEY_SPANS.with(|c| c.borrow_mut().push((p, p + k.len())));
                     for _ in 0..3 {
                         hot.push((p, p + k.len()));
                     }
@@ -498,11 +503,13 @@ fn on_small_stack<T: Send>(ctx: &Ctx, f: impl FnOnce() -> T + Send) -> T {
 }
 
 pub fn c04_faulted(ctx: &Ctx, out: &mut RunOut) -> Result<(), Violation> {
-    for k in ["fault-truncate", "fault-bit-flip", "fault-byte-burst", "fault-zero-block", "fault-stale-block", "fault-misdirected-block", "fault-duplicated-block", "fault-splice", "fault-digit-edit", "fault-ref-retarget", "fault-cipher-pad-edit", "fault-number-extreme", "fault-deferred-length-edit", "base-with-deferred-length-in-the-clear", "deferred-length-changed-in-place", "deferred-length-extreme-only-fault", "entry-load-mem", "entry-load-from-faulty-source", "entry-incremental-load", "base-deep-nesting", "base-encrypted", "faulted-image-loaded-ok", "faulted-image-rejected"] {
+    for k in ["fault-truncate", "fault-bit-flip", "fault-byte-burst", "fault-zero-block", "fault-stale-block", "fault-misdirected-block", "fault-duplicated-block", "fault-splice", "fault-digit-edit", "fault-ref-retarget", "fault-cipher-pad-edit", "fault-number-extreme", "fault-deferred-length-edit", "fault-encryption-key-name-damaged", "base-with-deferred-length-in-the-clear", "deferred-length-changed-in-place", "deferred-length-extreme-only-fault", "entry-load-mem", "entry-load-from-faulty-source", "entry-incremental-load", "base-deep-nesting", "base-encrypted", "faulted-image-loaded-ok", "faulted-image-rejected"] {
         ctx.count_n(k, 0); // registered so that a probe that never fires shows up as zero in the evidence
     }
     LENGTH_OBJECT_SPANS.with(|c| c.borrow_mut().clear());
+    ENC_KEY_SPANS.with(|c| c.borrow_mut().clear());
     let (base, older, hot, what) = base_image(ctx)?;
+    let enc_keys: Vec<(usize, usize)> = ENC_KEY_SPANS.with(|c| c.borrow().clone());
     let length_spans: Vec<(usize, usize)> = LENGTH_OBJECT_SPANS.with(|c| c.borrow().clone());
     if !length_spans.is_empty() {
         ctx.count("base-with-deferred-length-in-the-clear");
@@ -531,6 +538,19 @@ pub fn c04_faulted(ctx: &Ctx, out: &mut RunOut) -> Result<(), Violation> {
                 img[digits_at..b].copy_from_slice(&d);
                 ctx.count("fault-deferred-length-edit");
                 kinds.push("deferred-length-edit");
+            }
+        }
+        // encrypted files: a sixth of the variants is one damaged character in one key name of the
+        // encryption dictionary (for the security handler that entry is then missing)
+        if kinds.is_empty() && !enc_keys.is_empty() && ctx.chance(F, 1, 6, "enc-key-damage") {
+            let (a, b) = enc_keys[ctx.draw(F, enc_keys.len() as u64, "enc-key-which") as usize];
+            if b - a >= 2 && b <= img.len() {
+                let pos = a + 1 + ctx.draw(F, (b - a - 1) as u64, "enc-key-pos") as usize;
+                if img[pos].is_ascii_alphabetic() {
+                    img[pos] = if img[pos] == b'x' { b'y' } else { b'x' };
+                    ctx.count("fault-encryption-key-name-damaged");
+                    kinds.push("enc-key-damage");
+                }
             }
         }
         for _ in 0..if kinds.is_empty() { n_faults } else { 0 } {
@@ -699,7 +719,8 @@ pub fn c04_faulted(ctx: &Ctx, out: &mut RunOut) -> Result<(), Violation> {
         })?;
         // the memory clause for this entry point too: a few hundred bytes of CMap must not cost megabytes
         let after = crate::alloc::snapshot();
-        let budget: usize = (1 << 20) + 1024 * cm_len;
+        // (generous on purpose: a fixed table of a few megabytes for two-byte codes would still be modest)
+        let budget: usize = (8 << 20) + 4096 * cm_len;
         if after.max_request > budget {
             return Err(Violation::new("allocation-unrelated-to-input", format!("ToUnicode CMap of {cm_len} bytes: single allocation request of {} bytes", after.max_request)));
         }
